@@ -413,7 +413,11 @@ func (env *Env) object(o types.Object) Val {
 		if !ok {
 			env.fail("%s is not a global", ob.Name())
 		}
-		return env.pureLoad(e.globalPtr(g).(PtrV))
+		gp := e.globalPtr(g).(PtrV)
+		if gp.ArrBase {
+			return gp // arrays are indexed in place
+		}
+		return env.pureLoad(gp)
 	}
 	env.fail("cannot use %s here", o.Name())
 	return nil
@@ -610,6 +614,10 @@ func (env *Env) callExpr(n *ast.CallExpr) Val {
 				}
 			case ArrayV:
 				return Scalar{e.ar.idxLit(x.Ty.Underlying().(*types.Array).Len()), intT}
+			case PtrV:
+				if x.ArrBase {
+					return Scalar{e.ar.idxLit(x.ArrLen), intT}
+				}
 			case ConstV:
 				if x.V.Kind() == constant.String {
 					return ConstV{constant.MakeInt64(int64(len(constant.StringVal(x.V))))}
@@ -727,6 +735,15 @@ func (env *Env) callExpr(n *ast.CallExpr) Val {
 			m := env.eval(n.Args[0]).(Scalar)
 			mt := m.Ty.Underlying().(*types.Map)
 			return env.mapRead(m, mt, env.typed(env.eval(n.Args[1]), mt.Key()), true)
+		case "ret0", "ret1", "ret2", "ret3":
+			// component of a multi-result call
+			v := env.eval(n.Args[0])
+			tv, ok := v.(TupleV)
+			k := int(id.Name[3] - '0')
+			if !ok || k >= len(tv.Vs) {
+				env.fail("%s of a value that is not a %d-tuple", id.Name, k+1)
+			}
+			return tv.Vs[k]
 		case "sameslice":
 			a, b := env.eval(n.Args[0]).(SliceV), env.eval(n.Args[1]).(SliceV)
 			return Scalar{And(Eq(a.Rid, b.Rid), Eq(a.Off, b.Off), Eq(a.Len, b.Len), Eq(a.Cap, b.Cap)), boolT}
